@@ -21,6 +21,7 @@ pub fn dispatch(ctx: &Ctx) -> i32 {
         "C16" => widths::check(ctx),
         "C18" => meta::check(ctx),
         "C19" => specs::check(ctx),
+        "C09" => avsync::check(ctx),
         "C11" => frag::check(ctx, "C11"),
         "C06" => contract::check(ctx, contract::Which::C06),
         p => {
@@ -31,6 +32,9 @@ pub fn dispatch(ctx: &Ctx) -> i32 {
 }
 
 pub fn replay(prop: &str, case: &serde_json::Value) -> i32 {
+    if prop == "C09" {
+        return avsync::replay(case);
+    }
     match case["engine"].as_str() {
         Some("E1") => e1::replay(prop, case),
         Some("contract") => contract::replay(prop, case),
@@ -58,6 +62,7 @@ pub mod nopanic;
 pub mod widths;
 pub mod meta;
 pub mod specs;
+pub mod avsync;
 
 use oracle::report::{Meta, Tally};
 
